@@ -56,7 +56,7 @@ def gen(rng):
         ok = ok and exact_double(scale) and exact_double(bias)
         if not ok: continue
         return {'s': s_, 'nw': nw, 'nf': nf, 'r': rng.choice(RMODES), 'o': rng.choice(OMODES), 'scale': scale, 'bias': bias, 'vs': vs, 'ts': ts,
-                'route': rng.choice(['ctor', 'call', 'set_val']), 'carrier': rng.choice(['float', 'int', 'int', 'npint', 'listint', 'np:uint8', 'np:int8', 'np:int16', 'np:uint16', 'np:uint32', 'np:uint64', 'np:float32']),
+                'route': rng.choice(['ctor', 'call', 'set_val', 'ctor_like']), 'carrier': rng.choice(['float', 'int', 'int', 'npint', 'listint', 'np:uint8', 'np:int8', 'np:int16', 'np:uint16', 'np:uint32', 'np:uint64', 'np:float32', 'fxp', 'fxp']),
                 'pyint_params': rng.random() < 0.5}      # integral scale / bias passed as Python ints (not floats)
 
 def jcase(c):
@@ -87,8 +87,17 @@ def run_cases(cases, res):
                 ok = all(Fraction(float(dt.type(int(v) if dt.kind in 'iu' else v))) == Fraction(v) for v in fl) and (dt.kind == 'f' or all(v.denominator == 1 for v in c['vs']))
             except (OverflowError, ValueError): ok = False
             if ok: val = np.array([int(v) for v in fl] if dt.kind in 'iu' else fl, dtype=dt) if len(fl) > 1 else dt.type(int(fl[0]) if dt.kind in 'iu' else fl[0])
+        if c.get('carrier') == 'fxp':        # the value supplied as an (unscaled) fixed-point object that holds it exactly
+            fl = [float(v) for v in c['vs']]
+            val = fx.Fxp(np.array(fl) if len(fl) > 1 else fl[0])
+            if [Fraction(t) for t in np.asarray(val.get_val()).reshape(-1).tolist()] != [Fraction(t) for t in fl] or val.n_word > 52:
+                val = fl if len(fl) > 1 else fl[0]
         try:
-            if c['route'] == 'ctor': x = fx.Fxp(val, c['s'], c['nw'], c['nf'], **kw)
+            if c['route'] == 'ctor_like':
+                # sizes and modes from a template, scale and bias given explicitly
+                tmpl = fx.Fxp(None, c['s'], c['nw'], c['nf'], rounding=c['r'], overflow=c['o'])
+                x = fx.Fxp(val, like=tmpl, scale=kw['scale'], bias=kw['bias'])
+            elif c['route'] == 'ctor': x = fx.Fxp(val, c['s'], c['nw'], c['nf'], **kw)
             else:
                 x = fx.Fxp(None, c['s'], c['nw'], c['nf'], **kw)
                 x.reset()        # the initial value 0 is itself transformed and may raise flags at construction
